@@ -35,6 +35,9 @@ def main(argv=None):
     repo = os.environ.get("VERIF_REPO", "/repo")
     if repo not in sys.path:
         sys.path.insert(0, repo)
+    if os.environ.get("VERIF_COV"):
+        from . import covtrace
+        covtrace.install(repo)
     _assert_repo()
     import logging
     logging.disable(logging.CRITICAL)
